@@ -22,6 +22,8 @@ type Lexer struct {
 	isEOF  bool
 	atEOF  bool // the underlying reader is exhausted (as opposed to a NUL byte in the input)
 
+	eofToken token.Token
+
 	customs map[string]token.TokenType
 }
 
@@ -342,14 +344,18 @@ func (l *Lexer) NextToken() token.Token {
 			t = newToken(token.ILLEGAL, l.char, line, index)
 			break
 		}
+		if l.isEOF {
+			// Asked again after the end of input: keep reporting where it was first seen
+			return l.eofToken
+		}
 		t.Literal = ""
 		t.Type = token.EOF
 		t.Line = line
 		t.Position = index
-		if !l.isEOF {
-			l.NewLine()
-			l.isEOF = true
-		}
+		t.File = l.file
+		l.NewLine()
+		l.isEOF = true
+		l.eofToken = t
 	case 0x0A: // '\n'
 		t = newToken(token.LF, l.char, line, index)
 	default:
